@@ -91,3 +91,83 @@ def fallback(run):
     if g.get("found"):
         return g
     return find_reader(run, {})
+
+
+# ---------------------------------------------------------------------------------------------------------------------------
+# Bounded exploration next to the proof (NOT counted): "the compiler's own reader reads back every file the compiler writes, and
+# the target interpreter's unmarshaller accepts it" on real files - the code-object level (field sequence of CodeObj::into_bytes
+# vs. CodeObj::from_bytes, interned strings, nested code objects), which the scalar/strings contracts do not carry.
+def explore_files(run):
+    import glob
+    import os
+    import shutil
+    import subprocess
+    import tempfile
+    from units.C14.cex import build_erg
+    from units.C16 import cpython
+    erg = build_erg(run)
+    here = os.path.dirname(os.path.abspath(__file__))
+    quick = run.tier != 'thorough'
+    minors = [11] if quick else [11, 10, 9, 8, 7]
+    files = sorted(glob.glob(os.path.join(here, 'probes', '*.er')) + glob.glob(os.path.join(run.repo, 'tests', 'should_ok', '*.er')) + glob.glob(os.path.join(run.repo, 'examples', '*.er')))
+    work = tempfile.mkdtemp(prefix='pycread-', dir=run.scratch)
+    fds = []
+    n = 0
+    for minor in minors:
+        py = cpython.find_interpreter(minor)
+        if not py:
+            continue
+        for f in files:
+            d = tempfile.mkdtemp(dir=work)
+            dst = os.path.join(d, os.path.basename(f))
+            shutil.copy(f, dst)
+            try:
+                subprocess.run([erg, '--py-command', py, 'compile', dst], capture_output=True, text=True, timeout=180, cwd=os.path.dirname(f))
+            except subprocess.TimeoutExpired:
+                continue
+            pyc = dst[:-3] + '.pyc'
+            if not os.path.exists(pyc):
+                shutil.rmtree(d, ignore_errors=True)
+                continue
+            n += 1
+            r = subprocess.run([erg, '--mode', 'read', pyc], capture_output=True, text=True, timeout=120)
+            out = (r.stdout + r.stderr)
+            if r.returncode != 0 or 'failed to deserialize' in out or 'panicked' in out:
+                fds.append({"key": "3.%d|%s|own reader" % (minor, os.path.basename(f)), "verdict": "Python 3.%d, %s: `erg --mode read` rejects the file the compiler wrote: %s" % (minor, os.path.basename(f), out.strip()[-200:]),
+                            "input": {"file": f, "target": "3.%d" % minor}, "oracle": "the compiler's own reader reads back every file the compiler writes",
+                            "replay_cmd": "%s --py-command %s compile %s && %s --mode read %s" % (erg, py, f, erg, os.path.basename(pyc))})
+            if os.path.dirname(f) == os.path.join(here, 'probes') and minor == 11:
+                # "...and reports any other byte sequence as a broken file instead of crashing": single-byte mutations of a real file
+                import random
+                rnd = random.Random(run.seed * 7919 + len(fds))
+                data = open(pyc, 'rb').read()
+                n_mut = 40 if quick else 400
+                for k in range(n_mut):
+                    pos = rnd.randrange(16, len(data))
+                    mut = bytearray(data)
+                    mut[pos] = rnd.randrange(256)
+                    mp = pyc + '.mut'
+                    open(mp, 'wb').write(bytes(mut))
+                    try:
+                        rr = subprocess.run([erg, '--mode', 'read', mp], capture_output=True, text=True, timeout=60)
+                    except subprocess.TimeoutExpired:
+                        fds.append({"key": "3.11|%s|reader hangs on a mutated file" % os.path.basename(f), "verdict": "the reader did not finish within 60 s on %s with byte %d set to %d" % (os.path.basename(f), pos, mut[pos]), "input": {"file": f, "byte": pos, "value": mut[pos]}})
+                        break
+                    oo = rr.stdout[-400:] + rr.stderr[-1200:]
+                    if rr.returncode < 0 or 'panicked' in oo or 'overflowed its stack' in oo:
+                        fds.append({"key": "3.11|%s|reader crashes on a mutated file" % os.path.basename(f),
+                                    "verdict": "`erg --mode read` crashes on %s with byte %d set to 0x%02x: %s" % (os.path.basename(f)[:-3] + '.pyc', pos, mut[pos], ' '.join(oo.split())[-220:]),
+                                    "input": {"file": f, "byte_offset": pos, "value": mut[pos]}, "oracle": "any other byte sequence is reported as a broken file instead of crashing",
+                                    "replay_cmd": "compile %s, set byte %d to %d, %s --mode read <file>" % (f, pos, mut[pos], erg)})
+                        break
+                run.extra.setdefault("mutated_files_read", 0)
+                run.extra["mutated_files_read"] += n_mut
+            q = subprocess.run([py, '-c', "import marshal,sys; marshal.loads(open(sys.argv[1],'rb').read()[16:])", pyc], capture_output=True, text=True, timeout=60)
+            if q.returncode != 0:
+                fds.append({"key": "3.%d|%s|marshal.loads" % (minor, os.path.basename(f)), "verdict": "Python 3.%d, %s: the target interpreter's unmarshaller rejects the file: %s" % (minor, os.path.basename(f), q.stderr.strip()[-200:]),
+                            "input": {"file": f, "target": "3.%d" % minor}, "oracle": "marshal.loads of the target interpreter", "replay_cmd": "%s -c 'import marshal; marshal.loads(open(\"%s\",\"rb\").read()[16:])'" % (py, pyc)})
+            shutil.rmtree(d, ignore_errors=True)
+    shutil.rmtree(work, ignore_errors=True)
+    run.extra["bounded_pyc_read_back"] = {"files_written_and_read_back": n, "targets": ["3.%d" % m for m in minors],
+                                          "corpus": "units/C15/probes, tests/should_ok, examples", "checked": "`erg --mode read` accepts the file; marshal.loads of the target interpreter accepts it"}
+    return {"found": bool(fds), "findings": fds, "note": "%d files written and read back, %d findings" % (n, len(fds))}
